@@ -357,7 +357,13 @@ func c03Server(l *core.Ledger, r *rt) {
 	key := fnKey(sl.fn)
 	l.OK("C03-F4", "who-may-call/server-RecvMsg", sl.recv.Pos(), "single read site in "+key)
 	c03F4(l, sl, "C03-F4")
-	// F5
+	c03F5(l, sl)
+}
+
+// c03F5 is shared with C04-H5: a handler that released early still reads the
+// metadata of *its* request when it wraps its reply.
+func c03F5(l *core.Ledger, sl *serverLoop) {
+	key := fnKey(sl.fn)
 	if len(sl.goH) != 1 {
 		l.Bad("C03-F5", key+"/handler-start", sl.fn.Pos(), fmt.Sprintf("%d handler start sites; exactly one per received message is required", len(sl.goH)))
 		return
